@@ -226,7 +226,7 @@ def good_answer(rng, rq, kt, variant=None):
 
 FAULTS = ['silence', 'garbage', 'truncated', 'truncated', 'corrupted', 'foreign_ack', 'nak_first', 'rejected_mga', 'unrelated',
           'nmea', 'txfail', 'undecodable', 'response_only', 'ack_before_response', 'unregistered_class', 'empty_reads',
-          'stale_ck', 'marker_then_answer_late', 'answer_too_late', 'reject_marker_answer']
+          'stale_ck', 'marker_then_answer_late', 'answer_too_late', 'reject_marker_answer', 'response_then_nak']
 
 
 def fault_events(rng, rq, kt, fault, mode, delay=100, others=()):
@@ -279,6 +279,12 @@ def fault_events(rng, rq, kt, fault, mode, delay=100, others=()):
         else:
             return [(bytes(bad) + full, delay + rng.choice([0, 1, 5]))]
         return [(first + bytes(bad) + full, rng.choice([0, 1]))]
+    elif fault == 'response_then_nak':
+        # configuration poll: the response, then an ACK-NAK naming the request (and no ACK-ACK): not acknowledged, nothing to return
+        if rq.op == 'poll' and c == 6 and ans:
+            data = ans[0] + G.frame(5, 0, bytes([c, i])) + rng.choice([b'', G.frame(5, 0, bytes([c, i])), G.frame(5, 1, bytes([c, (i + 1) % 256]))])
+        else:
+            data = G.frame(5, 0, bytes([c, i])) if rq.op == 'poll' else G.frame(5, 1, bytes([i, c]) if c != i else bytes([c + 1, i]))
     elif fault == 'answer_too_late':
         return [(None, delay + 1), (full, 1)] if full else []
     elif fault == 'nmea':
